@@ -109,6 +109,9 @@ class Ref:
     def _rmcache(self, c):
         pass
 
+    def _clearcache(self, c):
+        pass
+
     def _set_tag(self, t, key):
         si, n, v, f = key
         for s in range(NST):
